@@ -35,3 +35,48 @@ def spawn(job, hashseed, timeout=180):
     if not line:
         return {'error': 'no result (exit %s): %s' % (p.returncode, p.stderr.decode('utf-8', 'replace')[-1500:])}
     return json.loads(line[-1][8:])
+
+
+class ZygotePool:
+    """One long-lived interpreter per hash seed; each job runs in a grandchild forked from it."""
+
+    def __init__(self):
+        self.z = {}
+
+    def _start(self, hashseed):
+        env = {
+            'PATH': '/usr/bin:/bin', 'PYTHONHASHSEED': str(hashseed),
+            'PYTHONPATH': '%s:%s' % (VERIF, REPO), 'VERIF_REPO': REPO, 'LANG': 'C.UTF-8',
+            'PYTHONDONTWRITEBYTECODE': '1', 'HOME': '/nonexistent',
+        }
+        cmd = [sys.executable, '-m', 'simstone.proc', '--zygote']
+        if _SETARCH:
+            cmd = [_SETARCH, 'x86_64', '-R'] + cmd
+        p = subprocess.Popen(cmd, env=env, cwd=VERIF, stdin=subprocess.PIPE, stdout=subprocess.PIPE,
+                             stderr=subprocess.DEVNULL, text=True)
+        line = p.stdout.readline()
+        if 'ZYGOTE-READY' not in line:
+            raise RuntimeError('zygote for hash seed %s did not start: %r' % (hashseed, line))
+        self.z[hashseed] = p
+        return p
+
+    def spawn(self, job, hashseed, tag='job'):
+        p = self.z.get(hashseed) or self._start(hashseed)
+        path = os.path.join(job['scratch'], '%s.json' % tag)
+        with open(path, 'w', encoding='utf-8') as f:
+            json.dump(job, f)
+        p.stdin.write(path + '\n')
+        p.stdin.flush()
+        line = p.stdout.readline()
+        if not line.startswith('SIMPROC '):
+            return {'error': 'zygote died or answered %r' % line[:200]}
+        return json.loads(line[8:])
+
+    def close(self):
+        for p in self.z.values():
+            try:
+                p.stdin.close()
+                p.wait(timeout=10)
+            except Exception:
+                p.kill()
+        self.z = {}
